@@ -258,6 +258,46 @@ def run(ck: Check, prog: Program) -> None:
     if not (okv and loop_ok):
         ck.finding('NAME-COMPOSE', view.qualname, 'view name composition', view.module.rel, view.node.lineno,
                    f'view must register every member yielded by __methods__ under registry prefix + view prefix + member name; found {parts}')
+    # ---- the registration decorators hand back what they decorate -----------------------------------
+    # `@registry.add` / `@registry.view` (with or without arguments) leave the decorated function / class bound to its name: the inner
+    # decorator returns its argument, the outer returns the decorator when called without a subject and the decorated subject otherwise
+    for reg_m in (reg.methods['add'], reg.methods['view']):
+        inner = [g for g in reg_m.nested.values() if isinstance(g.node, (ast.FunctionDef, ast.AsyncFunctionDef))]
+        probs_d = []
+        if len(inner) != 1:
+            probs_d.append(f'{len(inner)} inner decorators')
+        else:
+            dec = inner[0]
+            subj = dec.params[0].arg if dec.params else None
+            rets = [x for x in walk_own(dec.node) if isinstance(x, ast.Return)]
+            falls_off = not rets
+            if falls_off or any(x.value is None or dotted(x.value) != subj for x in rets):
+                probs_d.append(f'the inner decorator does not return the {subj} it decorates on every path')
+            inner_nodes = {id(y) for y in ast.walk(dec.node)}
+            outer_rets = [x for x in walk_own(reg_m.node) if isinstance(x, ast.Return) and id(x) not in inner_nodes]
+            first = reg_m.params[1].arg if len(reg_m.params) > 1 else None
+            kinds_ = set()
+            from ..flow import Flow as _FlowD
+            from ..util import stmt_node_of as _sno
+            cfg_d = CFG(reg_m, prog)
+            fl_d = _FlowD(cfg_d)
+            for x in outer_rets:
+                n_x = _sno(cfg_d, x.value) if x.value is not None else None
+                leaves = [al.expr for al in fl_d.alts(n_x, x.value)] if (n_x is not None and x.value is not None) else [x.value]
+                for v in leaves:
+                    if isinstance(v, ast.Name) and v.id == dec.name:
+                        kinds_.add('decorator')
+                    elif isinstance(v, ast.Call) and isinstance(v.func, ast.Name) and v.func.id == dec.name and [dotted(a) for a in v.args] == [first]:
+                        kinds_.add('decorated')
+                    else:
+                        probs_d.append(f'`{norm(x)[:50]}` returns neither the decorator nor the decorated {first}')
+            if not probs_d and kinds_ != {'decorator', 'decorated'}:
+                probs_d.append(f'only the form(s) {sorted(kinds_)} are returned')
+        ck.ob('NAME-COMPOSE', f'{short(reg_m.qualname)}: usable as `@{reg_m.name}` and `@{reg_m.name}(...)`, handing back what it decorates', not probs_d)
+        for pd in probs_d:
+            ck.finding('NAME-COMPOSE', reg_m.qualname, f'decorator protocol: {pd[:50]}', reg_m.module.rel, reg_m.node.lineno,
+                       f'{short(reg_m.qualname)}: {pd}: after `@registry.{reg_m.name}` the decorated name is bound to None (or decoration fails), so the '
+                       f'function / view the application defined is lost although a method was registered')
     # ---- merge ------------------------------------------------------------------------------------
     from ..flow import Flow
     merge = reg.methods['merge']
